@@ -28,7 +28,10 @@ class Call:
 
     @property
     def names(self):
-        return [n for n in (self.t.get('fn'), self.t.get('res')) if n]
+        out = [n for n in (self.t.get('fn'), self.t.get('res')) if n]
+        # `a::b::<impl X>::m` is also addressable as `X::m`
+        out += [norm_impl(n) for n in list(out) if '<impl ' in n]
+        return out
 
     @property
     def args(self):
@@ -55,6 +58,10 @@ class Call:
 
     def __repr__(self):
         return f'<call {self.name} @{self.body.name} bb{self.bb} {self.loc}>'
+
+
+def norm_impl(n):
+    return re.sub(r'<impl (?:[^<>]|<[^<>]*>)*?([A-Za-z_0-9:]+(?:<[^<>]*>)?)>::', r'\1::', n)
 
 
 def P(pattern):
